@@ -21,6 +21,7 @@ import (
 	"strconv"
 	"strings"
 	"sync"
+	"sync/atomic"
 	"testing"
 	"time"
 
@@ -29,7 +30,7 @@ import (
 )
 
 type c08rCase struct {
-	Threads  []string `json:"threads"` // "L" lookup | "C" completion
+	Threads  []string `json:"threads"` // "L" lookup | "C" completion | "T:f" "T:0" "T:3" lookup + the refresh it starts (fails / stores a TTL-0 answer / stores a TTL-300 answer)
 	Flag0    bool     `json:"flag0"`   // a refresh was claimed (by a real sequential lookup) before the threads start
 	Schedule []int    `json:"schedule"`
 }
@@ -42,6 +43,10 @@ type c08rStep struct {
 	Done   bool   `json:"done"`
 	Served bool   `json:"served"`
 	Res    *bool  `json:"res,omitempty"` // needRefresh of a lookup that returned
+	// life-cycle cases: entries in creation order, which one the map holds, refreshes whose upstream work is running
+	Cur      int    `json:"cur"`
+	Flags    []bool `json:"flags"`
+	Inflight int    `json:"inflight"`
 }
 
 type c08rResult struct {
@@ -91,6 +96,7 @@ type c08rThread struct {
 	served   bool
 	refresh  bool
 	lookup   bool
+	fine     bool // also parks at the map operations (c08.mp.*): life-cycle threads
 }
 
 type c08rSched struct {
@@ -99,21 +105,21 @@ type c08rSched struct {
 }
 
 func (s *c08rSched) yield(point string) {
-	if point != "start" && !strings.HasPrefix(point, "c08.rf.") {
+	if point != "start" && !strings.HasPrefix(point, "c08.rf.") && !strings.HasPrefix(point, "c08.mp.") {
 		return
 	}
 	s.mu.Lock()
 	th := s.threads[c08rGoid()]
 	s.mu.Unlock()
-	if th == nil {
+	if th == nil || (strings.HasPrefix(point, "c08.mp.") && !th.fine) {
 		return
 	}
 	th.parked <- point
 	<-th.release
 }
 
-func (s *c08rSched) spawn(lookup bool, body func(th *c08rThread)) (*c08rThread, bool) {
-	th := &c08rThread{release: make(chan struct{}), parked: make(chan string), done: make(chan struct{}), lookup: lookup}
+func (s *c08rSched) spawn(lookup bool, fine bool, body func(th *c08rThread)) (*c08rThread, bool) {
+	th := &c08rThread{release: make(chan struct{}), parked: make(chan string), done: make(chan struct{}), lookup: lookup, fine: fine}
 	go func() {
 		id := c08rGoid()
 		s.mu.Lock()
@@ -209,16 +215,44 @@ func c08rRun(cs c08rCase) (res c08rResult) {
 		res.Dump = c08rDump()
 	}
 	var threads []*c08rThread
-	for _, kind := range cs.Threads {
+	var inflight atomic.Int32
+	entries := []*DnsCache{entry}
+	for ti, kind := range cs.Threads {
 		var th *c08rThread
 		var ok bool
 		if kind == "L" {
-			th, ok = sched.spawn(true, func(th *c08rThread) {
+			th, ok = sched.spawn(true, false, func(th *c08rThread) {
 				resp, refresh := w.ctl.LookupDnsRespCache_(query(), key, false)
 				th.served, th.refresh = resp != nil, refresh
 			})
+		} else if strings.HasPrefix(kind, "T:") {
+			outcome, id := kind[2:], uint32(100+ti)
+			th, ok = sched.spawn(true, true, func(th *c08rThread) {
+				resp, refresh := w.ctl.LookupDnsRespCache_(query(), key, false)
+				th.served, th.refresh = resp != nil, refresh
+				if !refresh {
+					return
+				}
+				// the background refresh this lookup starts: its upstream work, then backgroundRefresh's completion
+				inflight.Add(1)
+				if outcome == "f" {
+					sched.yield("c08.rf.h.upstream") // the upstream gives no answer
+				} else {
+					ttl := uint32(0)
+					if outcome == "3" {
+						ttl = 300
+					}
+					m := &dnsmessage.Msg{}
+					m.Response = true
+					m.Question = []dnsmessage.Question{{Name: op.Name, Qtype: op.Qtype, Qclass: dnsmessage.ClassINET}}
+					m.Answer = []dnsmessage.RR{c08AnsRR(op.Name, op.Qtype, id, ttl, 0)}
+					_ = w.ctl.NormalizeAndCacheDnsResp_(m, key) // the insert path, as dialSend does with the upstream's answer
+				}
+				inflight.Add(-1)
+				w.ctl.backgroundRefresh(key, &dnsmessage.Msg{}, nil, consts.DnsRequestOutboundIndex_Reject, nil)
+			})
 		} else {
-			th, ok = sched.spawn(false, func(th *c08rThread) {
+			th, ok = sched.spawn(false, false, func(th *c08rThread) {
 				w.ctl.backgroundRefresh(key, &dnsmessage.Msg{}, nil, consts.DnsRequestOutboundIndex_Reject, nil)
 			})
 		}
@@ -238,7 +272,24 @@ func c08rRun(cs c08rCase) (res c08rResult) {
 	}
 	record := func(i int, before string) {
 		th := threads[i]
-		st := c08rStep{T: i, Before: before, At: th.at, Flag: entry.refreshing.Load(), Done: th.finished, Served: th.served}
+		st := c08rStep{T: i, Before: before, At: th.at, Flag: entry.refreshing.Load(), Done: th.finished, Served: th.served, Inflight: int(inflight.Load())}
+		if cur := w.entry(key); cur != nil {
+			st.Cur = -1
+			for j, e := range entries {
+				if e == cur {
+					st.Cur = j
+				}
+			}
+			if st.Cur < 0 {
+				entries = append(entries, cur)
+				st.Cur = len(entries) - 1
+			}
+		} else {
+			st.Cur = -1
+		}
+		for _, e := range entries {
+			st.Flags = append(st.Flags, e.refreshing.Load())
+		}
 		if th.finished && th.lookup {
 			r := th.refresh
 			st.Res = &r
